@@ -800,6 +800,53 @@ theorem recreate_same (T : STables) (s : Session) (ops : List SOp) (i j c sec : 
   rw [e1, e2, hH, hM]
   exact ⟨rfl, rfl⟩
 
+/-- **a module's description is a function of its own class chain and its own configuration only**, with the configuration
+as an object: a module created from section `sec` — whenever that happens after the section was loaded, whatever modules
+were created before from it or from sections sharing `Param` objects with it (`mid`), and whatever is done to other owners
+afterwards (`post`) — shows `instViews` of what `viewsOf env` says about its class and of the items the section had WHEN IT
+WAS LOADED. -/
+theorem module_description_function (T : STables) (env : Name → Option ClassDecl) (pre0 mid post : List SOp)
+    (sec n c : Name) (es : List (Name × EntrySpec)) (gs : List (PVal × List Name))
+    (hrun : SAdmissibleRun T {} ((pre0 ++ .load sec es gs :: mid) ++ .create n c sec :: post))
+    (hcons : ConsistentRun T.base env {} (worldOps T {} (pre0 ++ .load sec es gs :: mid)))
+    (cr : ClassRec) (hc : (srun T {} (pre0 ++ .load sec es gs :: mid)).world.findClass c = some cr)
+    (hpost : ∀ op ∈ worldOps T (srun T {} ((pre0 ++ .load sec es gs :: mid) ++ [.create n c sec])) post, op.target ≠ .inst n) :
+    ∃ V F, (∀ f, F ≤ f → viewsOf T.base env f c = some V) ∧
+      describeH (srun T {} ((pre0 ++ .load sec es gs :: mid) ++ .create n c sec :: post)).world (.inst n) =
+        (instViews T.base V.accessibles (describeCfg (srun T {} (pre0 ++ [.load sec es gs])) sec)).map
+          (fun nv => (nv.1, some nv.2)) := by
+  -- what the section shows when the module is created is what it showed when it was loaded
+  have hsec : (srun T {} (pre0 ++ [.load sec es gs])).findSection sec ≠ none := by
+    rw [srun_append]
+    simp only [srun, List.foldl_cons, List.foldl_nil, sstep, loadSection, Session.findSection, List.find?_append]
+    cases (srun T {} pre0).sections.find? (fun c => c.name == sec) with
+    | some x => simp
+    | none => simp
+  have hcfg : readSection (srun T {} (pre0 ++ .load sec es gs :: mid)) sec =
+      describeCfg (srun T {} (pre0 ++ [.load sec es gs])) sec := by
+    have e : pre0 ++ .load sec es gs :: mid = (pre0 ++ [.load sec es gs]) ++ mid := by simp
+    rw [e, srun_append]
+    exact readSection_run T mid _ (cfgBounded_reachable T _) sec hsec
+  have hw : worldOps T {} ((pre0 ++ .load sec es gs :: mid) ++ .create n c sec :: post) =
+      worldOps T {} (pre0 ++ .load sec es gs :: mid) ++
+        Op.inst n c (readSection (srun T {} (pre0 ++ .load sec es gs :: mid)) sec) ::
+        worldOps T (srun T {} ((pre0 ++ .load sec es gs :: mid) ++ [.create n c sec])) post := by
+    rw [worldOps_append]
+    simp only [worldOps, SOp.worldOp, Option.toList_some, List.singleton_append, srun, List.foldl_cons,
+      List.foldl_nil, List.foldl_append]
+  unfold SAdmissibleRun at hrun
+  rw [hw] at hrun
+  have hc' : (run T.base {} (worldOps T {} (pre0 ++ .load sec es gs :: mid))).findClass c = some cr := by
+    have e := srun_world T (pre0 ++ .load sec es gs :: mid) {}
+    rw [e] at hc
+    exact hc
+  obtain ⟨V, F, hF, hd⟩ := inst_description_function T.base env _ _ n c _ hrun hcons cr hc' hpost
+  refine ⟨V, F, hF, ?_⟩
+  have e2 := srun_world T ((pre0 ++ .load sec es gs :: mid) ++ .create n c sec :: post) {}
+  rw [e2, hw]
+  show describeH (run T.base {} _) (.inst n) = _
+  rw [hd, hcfg]
+
 /-- **features_function**: the module property `features` is a function of the class chain only — of the MRO of the class
 and of the direct bases of the classes along it — whatever else was defined -/
 theorem features_function (b1 b2 : List (Name × List Name)) (mro : List Name) (h : ∀ b ∈ mro, aget? b1 b = aget? b2 b) :
@@ -901,7 +948,7 @@ theorem register_own (T : STables) (s : Session) (i m : Name) :
 
 /-! ### non-vacuity: a session with a Feature class, a control mixin, a shared `Param` object and a restart -/
 
-def exT2 : Tables := { exT with paramProps := exT.paramProps ++ [("constant", "null")] }
+def exT2 : Tables := { exT with paramProps := exT.paramProps ++ [("constant", "null"), ("group", "\"\"")] }
 def exST : STables := ⟨exT2, ["Readable", "Writable", "Drivable", "Communicator"]⟩
 
 def dFeature : ClassDecl := ⟨"Feature", ["Feature"], true, []⟩
@@ -980,6 +1027,47 @@ example :
     · exact Option.isNone_iff_eq_none.1 (by decide +kernel)
     · exact Option.isNone_iff_eq_none.1 (by decide +kernel)
   · decide +kernel
+
+/-- **module_description_function** applied.  Two classes; the section `m1` is loaded; then `m2` is loaded with the same
+`Param` object (put into a group there) and a module is created from it; only then the module `m1` is created; afterwards
+`m2` is mutated.  All hypotheses hold, and `m1` shows the class description with the items of its section as loaded. -/
+def exMdPre0 : List SOp := [.define dA [], .define dB ["A"]]
+def exMdMid : List SOp := [.load "m2" [("p", .shared "m1" "p")] [("\"grp\"", ["p"])], .create "m2" "B" "m2"]
+def exMdPost : List SOp := [.setprop "m2" "p" [] "max" "1"]
+
+theorem ne_none_of_isSome {α : Type} {o : Option α} (h : o.isSome = true) : o ≠ none := by
+  intro e
+  rw [e] at h
+  cases h
+
+example :
+    SAdmissibleRun exST {} ((exMdPre0 ++ .load "m1" [("p", .new [("max", "3")])] [] :: exMdMid) ++ .create "m1" "B" "m1" :: exMdPost) ∧
+    ConsistentRun exT2 exEnv {} (worldOps exST {} (exMdPre0 ++ .load "m1" [("p", .new [("max", "3")])] [] :: exMdMid)) ∧
+    ((srun exST {} (exMdPre0 ++ .load "m1" [("p", .new [("max", "3")])] [] :: exMdMid)).world.findClass "B").isSome = true ∧
+    (∀ op ∈ worldOps exST (srun exST {} ((exMdPre0 ++ .load "m1" [("p", .new [("max", "3")])] [] :: exMdMid) ++
+        [.create "m1" "B" "m1"])) exMdPost, op.target ≠ .inst "m1") ∧
+    describeCfg (srun exST {} (exMdPre0 ++ [.load "m1" [("p", .new [("max", "3")])] []])) "m1" = [("p", [("max", "3")])] ∧
+    ((describeH (srun exST {} ((exMdPre0 ++ .load "m1" [("p", .new [("max", "3")])] [] :: exMdMid) ++
+        .create "m1" "B" "m1" :: exMdPost)).world (.inst "m1")).map (fun nv => nv.2.bind (·.tree) |>.map (·.props))) =
+      [some [("max", "3")]] ∧
+    ((describeH (srun exST {} ((exMdPre0 ++ .load "m1" [("p", .new [("max", "3")])] [] :: exMdMid) ++
+        .create "m1" "B" "m1" :: exMdPost)).world (.inst "m2")).map (fun nv => nv.2.map (fun v => (v.props.get? "group", v.tree.map (·.props))))) =
+      [some (some "\"grp\"", some [("max", "1")])] := by
+  refine ⟨?_, ?_, by decide +kernel, ?_, by decide +kernel, by decide +kernel, by decide +kernel⟩
+  · unfold SAdmissibleRun
+    refine ⟨rfl, ?_, ?_, ?_, trivial, trivial⟩ <;> exact Option.isNone_iff_eq_none.1 (by decide +kernel)
+  · refine ⟨⟨by simp [exEnv, dA], fun m hm => ?_⟩, ⟨by simp [exEnv, dB], fun m hm => ?_⟩, trivial, trivial⟩
+    · simp [dA] at hm
+    · simp only [dB, List.tail_cons, List.mem_singleton] at hm
+      subst hm
+      intro _
+      exact ne_none_of_isSome (by decide +kernel)
+  · intro op hop
+    simp only [worldOps, exMdPost, SOp.worldOp, Option.toList_some, List.singleton_append, List.mem_cons, List.not_mem_nil,
+      or_false] at hop
+    subst hop
+    intro h
+    simp [Op.target] at h
 
 /-- **later_instances_same_features** applied: `BF` has the feature `F` whatever was created before (a module of its base
 class `B` first, or not); its hypotheses hold in `exS0` -/
